@@ -21,6 +21,7 @@ def main():
         from pvc import selftest
         return selftest.main(a.tier)
     prop = a.what.upper()
+    if a.only: os.environ['PVC_ONLY_FILTER'] = a.only
     mod = importlib.import_module('props.' + prop)
     if a.replay:
         return mod.replay(a.replay) if hasattr(mod, 'replay') else generic_replay(a.replay)
